@@ -17,7 +17,7 @@ const (
 	rcCtxChange        // context-change calls begun
 	rcCtxSet           // 1 if the last context given is non-nil
 	rcKeep
-	rcCtxDone // context-change calls completed
+	rcCtxDone       // context-change calls completed
 	rcMode0   = 10  // +i  script of call i
 	rcRel0    = 20  // +i  times the release func of call i ran
 	rcInv0    = 30  // +i  released() of call i was invoked
